@@ -69,7 +69,7 @@ func withCap(d, foreign []byte) []byte {
 }
 
 func flowR(l *layers.IPv6) string {
-	r, p := lib.Protect(func() string {
+	r, p := protectS(func() string {
 		f := l.NetworkFlow()
 		s, d := f.Endpoints()
 		return fmt.Sprintf("flow=%d:%s:%s", int(f.EndpointType()), bytesR(s.Raw()), bytesR(d.Raw()))
@@ -83,7 +83,7 @@ func flowR(l *layers.IPv6) string {
 // decodeInto runs DecodeFromBytes of the object selected by kind; returns the reply line.
 func decodeInto(kind string, obj interface{}, data []byte) (reply string, err error, tr bool, panicked bool) {
 	fb := &feedback{}
-	reply, panicked = lib.Protect(func() string {
+	reply, panicked = protectS(func() string {
 		switch kind {
 		case "ip6":
 			l := obj.(*layers.IPv6)
@@ -236,7 +236,7 @@ func exec(a []string) string {
 		}
 		rec := &recorder{}
 		var err error
-		reply, panicked := lib.Protect(func() string {
+		reply, panicked := protectS(func() string {
 			err = lt.Decode(withCap(d, nil), rec)
 			return strings.Join(append([]string{resStr(err), trStr(rec.tr)}, rec.evs...), " ")
 		})
@@ -266,12 +266,14 @@ func exec(a []string) string {
 // ---------------------------------------------------------------- recording PacketBuilder
 
 type recorder struct {
-	tr  bool
-	evs []string
+	tr   bool
+	evs  []string
+	lays []gopacket.Layer
 }
 
 func (r *recorder) SetTruncated() { r.tr = true }
 func (r *recorder) AddLayer(l gopacket.Layer) {
+	r.lays = append(r.lays, l)
 	switch v := l.(type) {
 	case *layers.IPv6:
 		r.evs = append(r.evs, "add:"+ip6R(v))
